@@ -530,6 +530,9 @@ pub fn proxy_get(
     key: PropertyKey,
     receiver: JsValue,
 ) -> Result<Guarded, JsError> {
+    // A proxy without the trap forwards to its target, which may be a proxy again: a long
+    // chain must end in an error, not in a native stack overflow
+    interp.check_native_stack()?;
     // Check if this is actually a proxy
     let (target, handler) = {
         let obj_ref = obj.borrow();
@@ -586,6 +589,9 @@ pub fn proxy_set(
     value: JsValue,
     receiver: JsValue,
 ) -> Result<bool, JsError> {
+    // A proxy without the trap forwards to its target, which may be a proxy again: a long
+    // chain must end in an error, not in a native stack overflow
+    interp.check_native_stack()?;
     // Check if this is actually a proxy
     let (target, handler) = {
         let obj_ref = obj.borrow();
@@ -642,6 +648,9 @@ pub fn proxy_has(
     obj: JsObjectRef,
     key: &PropertyKey,
 ) -> Result<bool, JsError> {
+    // A proxy without the trap forwards to its target, which may be a proxy again: a long
+    // chain must end in an error, not in a native stack overflow
+    interp.check_native_stack()?;
     // Check if this is actually a proxy
     let (target, handler) = {
         let obj_ref = obj.borrow();
@@ -683,6 +692,9 @@ pub fn proxy_delete_property(
     obj: JsObjectRef,
     key: &PropertyKey,
 ) -> Result<bool, JsError> {
+    // A proxy without the trap forwards to its target, which may be a proxy again: a long
+    // chain must end in an error, not in a native stack overflow
+    interp.check_native_stack()?;
     // Check if this is actually a proxy
     let (target, handler) = {
         let obj_ref = obj.borrow();
@@ -725,6 +737,9 @@ pub fn proxy_get_own_property_descriptor(
     obj: JsObjectRef,
     key: &PropertyKey,
 ) -> Result<Guarded, JsError> {
+    // A proxy without the trap forwards to its target, which may be a proxy again: a long
+    // chain must end in an error, not in a native stack overflow
+    interp.check_native_stack()?;
     // Check if this is actually a proxy
     let (target, handler) = {
         let obj_ref = obj.borrow();
@@ -766,6 +781,9 @@ pub fn proxy_define_property(
     key: PropertyKey,
     descriptor: JsValue,
 ) -> Result<bool, JsError> {
+    // A proxy without the trap forwards to its target, which may be a proxy again: a long
+    // chain must end in an error, not in a native stack overflow
+    interp.check_native_stack()?;
     // Check if this is actually a proxy
     let (target, handler) = {
         let obj_ref = obj.borrow();
@@ -807,6 +825,9 @@ pub fn proxy_get_prototype_of(
     interp: &mut Interpreter,
     obj: JsObjectRef,
 ) -> Result<Guarded, JsError> {
+    // A proxy without the trap forwards to its target, which may be a proxy again: a long
+    // chain must end in an error, not in a native stack overflow
+    interp.check_native_stack()?;
     // Check if this is actually a proxy
     let (target, handler) = {
         let obj_ref = obj.borrow();
@@ -846,6 +867,9 @@ pub fn proxy_set_prototype_of(
     obj: JsObjectRef,
     proto: JsValue,
 ) -> Result<bool, JsError> {
+    // A proxy without the trap forwards to its target, which may be a proxy again: a long
+    // chain must end in an error, not in a native stack overflow
+    interp.check_native_stack()?;
     // Check if this is actually a proxy
     let (target, handler) = {
         let obj_ref = obj.borrow();
@@ -888,6 +912,9 @@ pub fn proxy_set_prototype_of(
 
 /// Proxy [[IsExtensible]] internal method
 pub fn proxy_is_extensible(interp: &mut Interpreter, obj: JsObjectRef) -> Result<bool, JsError> {
+    // A proxy without the trap forwards to its target, which may be a proxy again: a long
+    // chain must end in an error, not in a native stack overflow
+    interp.check_native_stack()?;
     // Check if this is actually a proxy
     let (target, handler) = {
         let obj_ref = obj.borrow();
@@ -924,6 +951,9 @@ pub fn proxy_prevent_extensions(
     interp: &mut Interpreter,
     obj: JsObjectRef,
 ) -> Result<bool, JsError> {
+    // A proxy without the trap forwards to its target, which may be a proxy again: a long
+    // chain must end in an error, not in a native stack overflow
+    interp.check_native_stack()?;
     // Check if this is actually a proxy
     let (target, handler) = {
         let obj_ref = obj.borrow();
@@ -958,6 +988,9 @@ pub fn proxy_prevent_extensions(
 
 /// Proxy [[OwnPropertyKeys]] internal method
 pub fn proxy_own_keys(interp: &mut Interpreter, obj: JsObjectRef) -> Result<Guarded, JsError> {
+    // A proxy without the trap forwards to its target, which may be a proxy again: a long
+    // chain must end in an error, not in a native stack overflow
+    interp.check_native_stack()?;
     // Check if this is actually a proxy
     let (target, handler) = {
         let obj_ref = obj.borrow();
@@ -997,6 +1030,9 @@ pub fn proxy_apply(
     this_arg: JsValue,
     args: Vec<JsValue>,
 ) -> Result<Guarded, JsError> {
+    // A proxy without the trap forwards to its target, which may be a proxy again: a long
+    // chain must end in an error, not in a native stack overflow
+    interp.check_native_stack()?;
     // Check if this is actually a proxy
     let (target, handler) = {
         let obj_ref = obj.borrow();
@@ -1044,6 +1080,9 @@ pub fn proxy_construct(
     args: Vec<JsValue>,
     new_target: JsValue,
 ) -> Result<Guarded, JsError> {
+    // A proxy without the trap forwards to its target, which may be a proxy again: a long
+    // chain must end in an error, not in a native stack overflow
+    interp.check_native_stack()?;
     // Check if this is actually a proxy
     let (target, handler) = {
         let obj_ref = obj.borrow();
